@@ -164,3 +164,40 @@ TEXT["C07"] = {
  "note": "Partial in this sense: the hypotheses on a (membership in GT) are discharged for concrete elements only as far as Proofs/FqTower.lean goes; exponentiate_gt_nodiv has no Lean model (judged against a^k only); 'uniform' is the bijection statement, not a probability statement.  Trusted: loop mirror and sampler model (tied by running both against the real code).",
  "technique": "Lean 4 proof (loop invariant over bit positions; digit arithmetic; polynomial identities for Granger-Scott squaring) + differential correspondence with boundary exponents",
 }
+
+# ---- texts superseding the ones above after the field/group/refinement developments (session 3) ----
+TEXT["C01"] = {
+ "level": "Lean 4 proof of the property's first and last sentences with NO hypothesis other than membership in the groups: for every Q in G2 (on the twist, killed by r, or the identity in the C++ flag representation) and EVERY P, "
+          "the pairing model returns exactly the TEXTBOOK optimal-ate pairing of Spec/Pairing.lean (affine chord-and-tangent Miller loop on the untwisted point, dense Fq12 arithmetic, inversion for x<0, literal exponent 3(q^12-1)/r) - theorem C01.pairing_is_optimal_ate - also through the prepared path; "
+          "every output on G1 x G2 raised to r is 1 and is a unit; on the published generators the value is the exported generator_pairing, which has order exactly r (kernel-evaluated closed facts for the model AND for the textbook definition).  "
+          "The proof chain, all machine-checked: Miller doubling/addition steps (REGENERATED from pairing.cpp) = tangent/chord/vertical lines times explicit monomial units, for all inputs incl. Z=0, Y=0, T=Q (Proofs/MillerSteps); loop refinement with the accumulated unit (MillerRefine); "
+          "final_exponentiation (regenerated chain) = x^(3(q^12-1)/r) for every x incl. 0, exponent COMPUTED from the chain and compared by the kernel, kills the units, turns conjugation into inversion (FinalExp, PairingRefine); the tower over Fq is a tower of fields with Frobenius = x^(q^k) (FqTower, q proved prime); "
+          "the Spec point law is Mathlib's elliptic-curve group, hence no exceptional step occurs for Q of order r because 2^65 < r (CurveGroup, OrderR).  The model's loop skeleton is tied to the real miller_loop/pairing exactly by the judge (raw Miller values, coefficients, final exponentiation, pairing values, all back ends).",
+ "note": "Named hypothesis H-bilinear for the 'consequently' sentences: bilinearity/non-degeneracy of the textbook optimal-ate FUNCTION is classical (Vercauteren 2010) but not provable with the libraries present; C01.textbook_bilinear derives e(aP,bQ)=e(P,Q)^(ab) from it, and since implementation = textbook it transfers verbatim; it is also sampled against the Spec with boundary scalars.  "
+         "Trusted: hand-written loop skeleton (tied by running both), cxx2lean translator, Lean kernel incl. its GMP arithmetic for the closed facts.",
+ "technique": "Lean 4 proof (refinement of the regenerated Miller steps and final-exponentiation chain to the textbook definition; field and group theory from Mathlib; kernel-evaluated closed facts) + differential correspondence against the textbook Spec",
+}
+TEXT["C07"] = {
+ "level": "Lean 4 proof with NO hypothesis other than membership in GT: for every a in Fq12 with a^r = 1 and every k < 2^256, the model of Fq12::exponentiate_gt on the digits of PowersOfX::decompose returns a^k = a^(k mod r) (C07.gt_exponentiation_exact); Granger-Scott squaring returns a^2; conjugate = inverse = a^(r-1); "
+          "the sampler returns digits < |x| recombining to y < r and the element a^y (digit vectors <-> [0,r) bijective); every output of final_exponentiation on a non-zero argument - hence every pairing value - is in GT.  "
+          "Ingredients, all machine-checked: loop invariant of the interleaved 4-way square-and-multiply with found_one for EVERY digit vector over any commutative ring (GtExp); C06's x-adic recombination; q = -|x| mod r; IsCyclotomic coordinate predicate = weakest hypothesis for the fast squaring, closed under *, conj, Frobenius, and equal to {0} u {a : a^(q^4-q^2+1)=1} over the concrete field (Cyclotomic, GtCapstone); Frobenius = x^(q^k) (FqTower).  "
+          "The loop mirror and the sampler model are tied to the real code exactly by the judge (gt_exp, gt_ops, gt_rand, xrand with boundary exponents and byte streams hitting y = r, r+-1 and digit boundaries).",
+ "note": "Not covered by a theorem: exponentiate_gt_nodiv (no Lean model; judged against a^k only); 'uniformly chosen' is the bijection statement, not a probability statement.  Trusted: loop mirror and sampler model (tied by running both), translator.",
+ "technique": "Lean 4 proof (loop invariant; digit arithmetic; polynomial identities for Granger-Scott squaring; finite-field theory) + differential correspondence with boundary exponents and streams",
+}
+TEXT["C04"] = {
+ "level": "Lean 4 theorems about the models REGENERATED from fq2.cpp/fq6.cpp/fq12.cpp/fq12_cyclotomic.cpp on every run.  Over any commutative ring: every translated add/subtract/double/negate/multiply/square/multiply-by-nonresidue/sparse c1, c01, c014 product/conjugate equals the schoolbook operation of F[u]/(u^2+1), F2[v]/(v^3-(u+1)), F6[w]/(w^2-v) (generated theorems, all alias variants).  "
+          "Over the concrete field (q proved prime): Fq, Fq2, Fq6, Fq12 are FIELDS with exactly the Spec operations (-1 non-square, 1+u non-cube, v non-square: closed facts + Fermat); the generated inverse equals the Spec inverse and a*inverse(a)=1 for every a != 0, inverse(0)=0, at every level; "
+          "frobenius_map a k = a^(q^k) for EVERY k and every element at every level (tables checked by the kernel, lifted by periodicity); conjugate = Frobenius 6; Fq2 norm = a*conj(a) = a^(q+1); a^(q^12-1)=1; "
+          "map_to_cyclotomic a = a^((q^6-1)(q^2+1)) for every a != 0 and lands in the cyclotomic subgroup; square_cyclotomic a = a*a IFF a = 0 or a^(q^4-q^2+1) = 1 (so the fast squaring is exact on the whole subgroup and nowhere else).",
+ "note": "Remaining correspondence-only items: Fq2 Legendre symbol and square root, byte I/O of tower elements, generic exponentiate (compared with the Spec on boundary+random inputs).  Trusted: Lean kernel (incl. GMP arithmetic for closed facts), cxx2lean translator, harness and judge.",
+ "technique": "Lean 4 proof (ring identities over the generated model; finite-field theory over Fin q; kernel-evaluated table facts) + differential correspondence",
+}
+TEXT["C05"] = {
+ "level": "Lean 4 theorems about the functions REGENERATED from curve.hpp on every run (Projective::add, mixed add, multiply2, negate, equal, from_affine, Affine::from_projective/negate/is_on_curve/equal; both the Fq and the Fq2 instantiation): for every field K of characteristic != 2, every b, all Jacobian representatives "
+          "(identity = z=0 with arbitrary x,y): toAffine(add p q) = p + q in the chord-and-tangent law by the code's own case split (either identity, equal points -> doubling detour, opposite points, generic), doubling, mixed addition, negation, equality <-> equal affine images, conversions with their z=0 / z=1 shortcuts, results stay on the curve; "
+          "the Fq2 instantiation equals the generic code at F = Fq2.  And that law IS the group law: an explicit bijection between the Spec's curve points and Mathlib's WeierstrassCurve.Affine.Point (a proved AddCommGroup) carrying add, neg, dbl, smul to +, -, 2., n. (C05.spec_group_iso), hence associativity/commutativity/inverses/smul laws for the Spec law and for the implementation's Jacobian arithmetic; "
+          "instantiated for y^2=x^3+4 over Fq and y^2=x^3+4(1+u) over Fq2 (fields by Proofs/FqTower, q proved prime); points of prime order r: [m]P = [n]P iff m = n mod r, y != 0.  Correspondence: every point function on boundary representatives against the Spec.",
+ "note": "Trusted: Lean kernel, Mathlib's elliptic-curve group law (checked by the kernel), cxx2lean translator (clang AST -> SSA), harness and judge.",
+ "technique": "Lean 4 proof (field_simp/linear_combination over generated Jacobian formulas, case analysis; transfer to Mathlib's elliptic-curve group) + differential correspondence",
+}
